@@ -720,17 +720,18 @@ def run_path(job):
     edges, seed, probes = job
     drv = Driver(seed)
     okc = 0
-    signal.signal(signal.SIGALRM, _alarm)
+    # (processor time of this worker, not wall-clock time: a busy machine must not look like a call that does not return)
+    signal.signal(signal.SIGPROF, _alarm)
     for i, e in enumerate(edges):
-        signal.alarm(60)
+        signal.setitimer(signal.ITIMER_PROF, 60)
         try:
             bad = drv.step(e, probes is None or probes[i])
         except Hang:
-            bad = [(None, f"{e['ret']['op']} did not return within 60 s")]
+            bad = [(None, f"{e['ret']['op']} did not return within 60 s of processor time")]
         except Exception as ex:
             bad = [(None, f"{e['ret']['op']} {e['ret']['a']}: harness could not execute the step: {type(ex).__name__}: {ex}")]
         finally:
-            signal.alarm(0)
+            signal.setitimer(signal.ITIMER_PROF, 0)
         if bad:
             return okc, {"step": i, "op": e["ret"], "what": "; ".join(b for _, b in bad[:3]), "fid": bad[0][0]}, drv.stats, drv.redraws
         okc += 1
